@@ -9,7 +9,7 @@ CHECK = {
         # String/FromString/JSON forms of TrackerStatus, PinMode, PinType; the parsers on arbitrary words
         suite("strings", "c08", 2000, 20000, stdin=True, args=["-suite", "str"]),
         # SEARCH (not proof): mutated valid encodings and random bytes into every decoder entry point, under recover()
-        suite("decoders", "c08", 10000, 350000, stdin=True, args=["-suite", "fuzz"], timeout={"quick": 600, "thorough": 2400}),
+        suite("decoders", "c08", 10000, 250000, stdin=True, args=["-suite", "fuzz"], timeout={"quick": 600, "thorough": 2400}),
     ],
     "lean_sources": ["ClusterVerif/Model/C08.lean", "ClusterVerif/Spec/C08.lean", "ClusterVerif/Lemmas/C08.lean",
                      "ClusterVerif/Gen/C08.lean"],
@@ -51,7 +51,8 @@ META = {
             "encoders and decoders on all 23 record types x formats and compares, field by field with the harness's own dumper, against the model's "
             "prediction and against the property's comparison.",
     "note": "Decoder robustness is search only (mutated encodings + random bytes under recover). Known findings on the unchanged tree: K01 origins not "
-            "decodable (msgpack, JSON), K02 stored form loses Mode when it disagrees with MaxDepth, K03 status filters widened by their string form, "
-            "K04 JSON decoding of an invalid multiaddress panics (go-multiaddr v0.3.3), K05 msgpack nil in an address list decodes to a value that cannot be re-encoded.",
+            "decodable (msgpack, JSON), K13 stored form loses Mode when it disagrees with MaxDepth, K14 status filters widened by their string form, "
+            "K16 msgpack nil in an address list decodes to a value that cannot be re-encoded (an error since f2e567e, no panic). "
+            "K15 (JSON decoding of an invalid multiaddress panicked) is fixed by f2e567e.",
     "technique": "Lean 4 decide-theorems over a reflection-generated schema table + theorems over hand models of the converters + differential correspondence + mutation-based decoder search",
 }
